@@ -58,4 +58,18 @@ CLAIMED = {
          "right after Pop, a failed push is followed by discarding the just-saved slot. sort.Search is modelled as 'first "
          "index with seq >= x' (its contract on a sorted slice)."),
    technique="Coq proof of the container/offset components + kernel-evaluated finite sweep; differential correspondence of the full stack + extracted oracle"),
+ "C07": dict(
+   text=("Coq theorems (5, closed): the model of FrameCodec.Decode (incl. the int(uint64) conversion) returns, for EVERY "
+         "unread byte string, exactly what the pure arithmetic RFC 6455 parser returns (next frame's exact bytes / need "
+         "more / too big), never panics and consumes exactly that frame; yielded frames are within the maximum (64-bit "
+         "lengths with the top bit set are rejected); any interleaving of feeds with arbitrary split points and decodes "
+         "delivers exactly the parser's frames of the concatenated input (split-independence, in sync), by induction "
+         "over sessions of any length; decode(encode(frame)) is the identical frame for every FIN/RSV/opcode/mask and "
+         "every payload length <= max. The model is run against the real FrameCodec (malformed headers x boundary length "
+         "fields x every split point, random bytes, well-formed multi-frame streams cut everywhere, encoder round trips "
+         "over all header combinations and length classes 0..65536/max/max+1) and the extracted parser judges the "
+         "implementation independently."),
+   note=("Trusted: Coq kernel, translator (constants), extraction, harness. The decoder model sits on the three-FIFO "
+         "specification of ByteBuffer (C09 refinement). Frame.ReadFrom (unused by the stream) is not modelled."),
+   technique="Coq refinement proof (decoder model = pure parser, induction over sessions, round-trip law); differential correspondence + extracted parser oracle"),
 }
